@@ -99,6 +99,9 @@ Proof.
     destruct st; cbn [no_ftag] in Hst; try discriminate Hst.
     + apply (IH Hrest v var _ out mk Hv Hmk (shaped_app _ _ _ Hs (plain_format_alpha_field _ _ false (elem_val_plain v e Hv))) H).
     + apply (IH Hrest v var _ out mk Hv Hmk (shaped_app _ _ _ Hs (plain_numeric _ _ (elem_val_plain v e Hv))) H).
+    + refine (IH Hrest v var _ out mk Hv Hmk (shaped_app _ _ _ Hs _) H).
+      destruct ((0 <? length (elem_val v e)) && (length (elem_val v e) <? nn w));
+        [apply plain_numeric|apply plain_format_alpha_field]; apply elem_val_plain; exact Hv.
     + apply (IH Hrest v var _ out mk Hv Hmk (shaped_app _ _ _ Hs (plain_parse_alpha _ _ (elem_val_plain v e Hv))) H).
     + refine (IH Hrest v var _ out mk Hv Hmk (shaped_app _ _ _ Hs _) H).
       rewrite plain_app. apply andb_true_iff. split.
